@@ -35,7 +35,7 @@ def main():
                     "(for use while background runs read /repo)")
     a = ap.parse_args()
     pid = a.id
-    wt = a.worktree or (("/tmp/seed3/%s" % pid if a.sub == "r3" else "/tmp/seed2/%s" % pid) if a.sub else "/tmp/seed/%s" % pid)
+    wt = a.worktree or (("/tmp/seed%s/%s" % (a.sub[1:], pid)) if a.sub else "/tmp/seed/%s" % pid)
     dest = os.path.join(VERIF, "seeded", pid, a.sub) if a.sub else os.path.join(VERIF, "seeded", pid)
     os.makedirs(dest, exist_ok=True)
     meta = {"property": pid, "worktree_used": wt}
